@@ -49,23 +49,49 @@ def add_out(outs, spec, out):
         outs["%d:%d" % (spec[0], spec[1])] = out
 
 
-def gen_send_op(r, driver, cats=None, p_error=0.15):
+CANCEL_AFTER = [0, 1, 500, 5000, 20000, 40000, 90000]
+
+
+def gen_send_op(r, driver, cats=None, p_error=0.15, allow_cancel=False):
     spec = cmds.gen_cmd(r, cats or driver_cats(driver))
     outs = {}
     add_out(outs, spec, gen_outcome(r, cmds.mk_cmd(spec), p_error))
-    return {"kind": "send", "cmd": spec, "outs": outs,
-            "gap_us": r.choice([0, 0, 50, 1000, 20000])}
+    op = {"kind": "send", "cmd": spec, "outs": outs,
+          "gap_us": r.choice([0, 0, 50, 1000, 20000])}
+    if allow_cancel and r.random() < 0.15:
+        op["cancel_after_us"] = r.choice(CANCEL_AFTER + [r.randrange(0, 250000)])
+    return op
 
 
-def gen_locked_op(r, driver, cats=None, p_error=0.15):
+def gen_parallel_op(r, driver, cats=None, p_error=0.15):
+    """Two or three sends issued concurrently under one explicitly held
+    transaction lock (what the Tridonic command semaphore exists for).
+    Commands without device type only: two concurrent in_transaction sends
+    would interleave their own EnableDeviceType prefixes."""
+    cs = [c for c in (cats or driver_cats(driver)) if not c.startswith("dt_")]
+    specs, outs = [], {}
+    for _ in range(r.randrange(2, 4)):
+        for _try in range(20):
+            s = cmds.gen_cmd(r, cs)
+            if s not in specs:
+                break
+        specs.append(s)
+        add_out(outs, s, gen_outcome(r, cmds.mk_cmd(s), p_error))
+    return {"kind": "parallel", "cmds": specs, "outs": outs, "gap_us": r.choice([0, 0, 50, 1000])}
+
+
+def gen_locked_op(r, driver, cats=None, p_error=0.15, allow_cancel=False):
     n = r.randrange(2, 4)
     specs, outs = [], {}
     for _ in range(n):
         s = cmds.gen_cmd(r, cats or driver_cats(driver))
         specs.append(s)
         add_out(outs, s, gen_outcome(r, cmds.mk_cmd(s), p_error))
-    return {"kind": "locked", "cmds": specs, "outs": outs,
-            "gap_us": r.choice([0, 0, 50, 1000])}
+    op = {"kind": "locked", "cmds": specs, "outs": outs,
+          "gap_us": r.choice([0, 0, 50, 1000])}
+    if allow_cancel and r.random() < 0.15:
+        op["cancel_after_us"] = r.choice(CANCEL_AFTER + [r.randrange(0, 250000)])
+    return op
 
 
 def gen_seq_op(r, driver, cats=None, p_error=0.15, allow_raise=True,
@@ -85,6 +111,10 @@ def gen_seq_op(r, driver, cats=None, p_error=0.15, allow_raise=True,
     op = {"kind": "seq", "items": items, "outs": outs,
           "gap_us": r.choice([0, 0, 50, 1000])}
     x = r.random()
+    if allow_raise and r.random() < 0.06:
+        # a sequence that yields a clean-up command from its finally clause:
+        # close() on it raises RuntimeError('generator ignored GeneratorExit')
+        op["bad_close"] = True
     if allow_raise and x < 0.2:
         op["raise_at"] = r.randrange(0, len(items) + 1)
     elif allow_cancel and x < 0.4:
@@ -101,10 +131,16 @@ def gen_callers(r, driver, ncallers, maxops, mix=(0.45, 0.15, 0.4), **kw):
         ops = []
         for _ in range(r.randrange(1, maxops + 1)):
             x = r.random()
-            if x < mix[0]:
-                ops.append(gen_send_op(r, driver, kw.get("cats"), kw.get("p_error", 0.15)))
+            # (hid drivers only: the serial drivers document in_transaction as internal to
+            # run_sequence and have no provision for two commands in flight)
+            if kw.get("parallel") and driver in ("tridonic", "hasseb") and r.random() < kw["parallel"]:
+                ops.append(gen_parallel_op(r, driver, kw.get("cats"), kw.get("p_error", 0.15)))
+            elif x < mix[0]:
+                ops.append(gen_send_op(r, driver, kw.get("cats"), kw.get("p_error", 0.15),
+                                       kw.get("cancel_sends", False)))
             elif x < mix[0] + mix[1]:
-                ops.append(gen_locked_op(r, driver, kw.get("cats"), kw.get("p_error", 0.15)))
+                ops.append(gen_locked_op(r, driver, kw.get("cats"), kw.get("p_error", 0.15),
+                                         kw.get("cancel_sends", False)))
             else:
                 ops.append(gen_seq_op(r, driver, kw.get("cats"), kw.get("p_error", 0.15),
                                       kw.get("allow_raise", True),
@@ -146,7 +182,7 @@ def shrink(plan):
                         if ra is not None and ra > k:
                             p["callers"][i]["ops"][j]["raise_at"] = ra - 1
                         yield p
-            for fld in ("raise_at", "cancel_after_us", "timeout_us"):
+            for fld in ("raise_at", "cancel_after_us", "timeout_us", "bad_close"):
                 if op.get(fld) is not None:
                     p = copy.deepcopy(plan)
                     del p["callers"][i]["ops"][j][fld]
